@@ -40,6 +40,8 @@ def validate(ctx, wd, evs, tag, invs, prop, keyfn):
     res = tlc.run_tlc('Config', cfg, workdir=wd, env={'TRACE_FILE': tf}, timeout=3000, cont=True)
     ctx.add_tlc(res, f'Config[{tag}]')
     ctx.traces += len(evs)
+    if res.generated < len(evs):
+        raise tlc.TLCError(f'not all events were evaluated by TLC: {res.generated} < {len(evs)}')
     if not res.ok and not res.all_violations:
         raise tlc.TLCError('Config failed without listing violations:\n' + res.stdout[-2500:])
     for inv, k in res.all_violations:
